@@ -246,7 +246,20 @@ fn query_archetype_identifiers_unchecked<
             (*world.get()).query_archetype_claims::<T::Views, T::Filter, Or<And<T::Views, T::Filter>, T::EntryViewsFilter>, T::EntryViews, QueryIndices, Or<And<R::ViewsFilterIndices, R::FilterIndices>, EntryViewsFilterIndices>, EntryIndices>()
         }
     {
-        borrowed_archetypes.insert_unique_unchecked(identifier, claims);
+        match borrowed_archetypes.entry(identifier) {
+            hash_map::Entry::Occupied(mut entry) => {
+                // Another task of this stage has already claimed components of this archetype.
+                // The claims of both tasks have to be recorded.
+                //
+                // SAFETY: Tasks within the same stage are guaranteed to be compatible with each
+                // other, so their claims can always be merged.
+                let merged_claims = unsafe { claims.merge_unchecked(entry.get()) };
+                entry.insert(merged_claims);
+            }
+            hash_map::Entry::Vacant(entry) => {
+                entry.insert(claims);
+            }
+        }
     }
 }
 
